@@ -84,7 +84,7 @@ PROPS["C10"] = dict(pkg="c10", shards=16, level="exploration",
     fuzz=[{"target": "FuzzDescription", "seconds": 120}],
     technique="mutation-based property testing (rapid + per-description enumeration of single structural mutations, sampled doubles, grammar-free trees) executed in supervised workers; oracle = load returns error or a schema on which every exercised operation is total",
     level_text="Exploration: valid descriptions of generated scopes and plugin schemas are mutated at every node (delete / rename / retype / re-point / unparsable texts / bad unit multipliers), loaded through UnserializeScope / UnserializeSchema in a supervised worker and, when accepted, exercised with generated inputs; panics, fatal errors and hangs at load time or on first use are violations.",
-    level_note="The quick tier runs a generated sample (about 400 per description) of each description's mutation enumeration, the thorough tier all of it; Client.ReadSchema is exercised by C08's hello-message faults (it is UnserializeSchema behind a CBOR decode).",
+    level_note="The quick tier runs a generated sample (about 400 per description) of each description's mutation enumeration (single mutations incl. grafts of other type descriptions), the thorough tier up to 20000 per description (all of it for most descriptions); Client.ReadSchema is exercised by C08's hello-message faults (it is UnserializeSchema behind a CBOR decode).",
     cap_s={"quick": 900, "thorough": 3400})
 
 PROPS["C11"] = dict(pkg="c11", shards=16, level="exploration", race=True,
